@@ -263,8 +263,8 @@ pub fn valid_proto(s: &mut Src, o: &ProtoOpts) -> Vec<Rec> {
         let mut used: Vec<String> = Vec::new();
         for i in 0..k {
             let prefix = s.pick(&o.prefixes).clone();
-            let mut name = ext_name(s);
-            if used.contains(&name) || crate::adapt::STD_NAMES.iter().any(|(n, _)| *n == name) || name.to_lowercase().starts_with("xml") {
+            let mut name = if !o.fat && s.chance(1, 6) { crate::adapt::STD_NAMES[s.below(20) as usize].0.to_string() } else { ext_name(s) };
+            if used.contains(&name) || name.to_lowercase().starts_with("xml") {
                 name = format!("{name}_{i}");
             }
             used.push(name.clone());
@@ -502,6 +502,11 @@ pub fn unit_quat(s: &mut Src) -> [f64; 4] {
 }
 
 pub fn pose_any(s: &mut Src) -> Pose {
+    if s.chance(1, 6) {
+        // exactly the default pose (and its negative-zero spellings)
+        let z = |s: &mut Src| F64(if s.chance(1, 4) { -0.0 } else { 0.0 });
+        return Pose { rot: [F64(1.0), z(s), z(s), z(s)], trans: [z(s), z(s), z(s)] };
+    }
     if s.flag() {
         let q = unit_quat(s);
         Pose { rot: [F64(q[0]), F64(q[1]), F64(q[2]), F64(q[3])], trans: [F64(f64_finite(s)), F64(f64_finite(s)), F64(f64_finite(s))] }
@@ -536,8 +541,10 @@ pub fn cloud_meta(s: &mut Src, density: u64) -> CloudMeta {
     opt!(acq_end, dt(s));
     opt!(pose, pose_any(s));
     if s.chance(density, 16) {
-        let k = s.below(4) as usize;
-        m.original_guids = Some((0..k).map(|_| guid(s)).collect());
+        let k = s.below(6) as usize;
+        let pool: Vec<String> = (0..3).map(|_| guid(s)).collect();
+        // repeated entries are legal and their order is content
+        m.original_guids = Some((0..k).map(|_| if s.flag() { s.pick(&pool).clone() } else { guid(s) }).collect());
     }
     m
 }
@@ -546,6 +553,29 @@ pub fn cloud_meta(s: &mut Src, density: u64) -> CloudMeta {
 pub struct BlobSpec {
     pub len: u32,
     pub seed: u64,
+    /// the source reader hands out at most this many bytes per read call (0 = everything at once)
+    #[serde(default)]
+    pub chunk: u16,
+}
+
+/// A legal `Read` source that returns short reads before it is exhausted.
+pub struct Trickle<'a> {
+    pub data: &'a [u8],
+    pub chunk: usize,
+    pub calls: usize,
+}
+impl std::io::Read for Trickle<'_> {
+    fn read(&mut self, buf: &mut [u8]) -> std::io::Result<usize> {
+        self.calls += 1;
+        let mut n = buf.len().min(self.data.len());
+        if self.chunk > 0 {
+            // vary the size of the short reads a little
+            n = n.min(1 + (self.chunk + self.calls * 7) % (self.chunk + 1));
+        }
+        buf[..n].copy_from_slice(&self.data[..n]);
+        self.data = &self.data[n..];
+        Ok(n)
+    }
 }
 impl BlobSpec {
     pub fn bytes(&self) -> Vec<u8> {
@@ -576,7 +606,7 @@ pub fn blob_len(s: &mut Src) -> u32 {
 }
 
 pub fn blob_spec(s: &mut Src) -> BlobSpec {
-    BlobSpec { len: blob_len(s), seed: s.u64() | 1 }
+    BlobSpec { len: blob_len(s), seed: s.u64() | 1, chunk: if s.chance(1, 4) { *s.pick(&[1u16, 7, 100, 1000, 5000]) } else { 0 } }
 }
 
 #[derive(Clone, Debug, PartialEq, Serialize, Deserialize)]
